@@ -16,6 +16,8 @@ def build_origin_wire(t, rng):
     hdrs = [(b'Content-Type', b'application/octet-stream'), (b'X-Sim-Ver', key.encode())]
     if t.get('cc'):
         hdrs.append((b'Cache-Control', t['cc'].encode()))
+    if t.get('lm'):
+        hdrs.append((b'Last-Modified', b'Sat, 11 Nov 2023 %02d:00:00 GMT' % (t['lm'] % 24)))
     if status == 206:
         hdrs.append((b'Content-Range', b'bytes 0-%d/%d' % (max(size - 1, 0), max(size, 1) + 10)))
     if status == 301:
@@ -90,6 +92,22 @@ class C01(Prop):
                     kinds = ['fin', 'rst', 'stall'] if t['framing'] != 'close' else ['rst', 'stall']
                     t['fault'] = {'kind': rng.choice(kinds), 'frac': rng.random()}
                 c['txns'].append(t)
+            # revalidation stratum: a cacheable response with a short lifetime and a validator is requested again after it went stale; the origin then
+            # answers squid's conditional request with a NEW full response (another tagged object) that must be relayed byte-exactly
+            if plan['cache'] != 'none' and not faulty and rng.random() < 0.35:
+                base = [t for t in c['txns'] if t['method'] == 'GET' and t['status'] == 200 and t['framing'] != 'close' and not t.get('retry_status') and not t.get('fault')]
+                if base:
+                    b = rng.choice(base)
+                    b['cc'] = 'max-age=1'; b['lm'] = 3
+                    tid += 1
+                    t2 = dict(b); t2.update({'id': index * 100 + tid, 'reval_of': b['id'], 'lm': 9, 'cc': 'max-age=1000', 'size': hc.pick_size(rng, big_ok=False), 'framing': rng.choice(['cl', 'chunked']),
+                                             'wait': 2500000})
+                    if c.get('readpace'):
+                        t2['size'] = min(t2['size'], int(c['readpace'][0] * 1e6 / c['readpace'][1] * 60))
+                    hc.bound_transfer(t2, plan['knobs'])
+                    c['txns'].append(t2)
+                    if rng.random() < 0.6:
+                        plan['conf']['lines'].append('maximum_object_size_in_memory 0 KB')   # the stale copy then lives on disk only (where there is a cache_dir)
             clients.append(c)
         plan['clients'] = clients
         plan['_lists'] = ['clients'] + ['clients.%d.txns' % i for i in range(len(clients))]
@@ -109,8 +127,10 @@ class C01(Prop):
         if any(t.get('retry_status') == 503 for c in plan['clients'] for t in c['txns']):
             scn.conf = scn.conf.replace('http_access allow all', 'retry_on_error on\nhttp_access allow all')
         expect = {}
-        for c in plan['clients']:
-            for t in c['txns']:
+        ordered = [(c, t) for c in plan['clients'] for t in c['txns']]
+        ordered.sort(key=lambda ct: 0 if ct[1].get('reval_of') else 1)      # rules of revalidation transactions come first: they match on the request id
+        for c, t in ordered:
+            if True:
                 rng = random.Random(t['id'])
                 head, enc, body = build_origin_wire(t, rng)
                 wire = Payload(head, enc)
@@ -126,7 +146,7 @@ class C01(Prop):
                 f = t.get('fault')
                 info = {'body': body, 'status': t['status'], 'method': t['method'], 'fault': None, 'framing': t['framing'], 'retry_status': t.get('retry_status')}
                 for srv_t in targets:
-                    r = srv_t.sub('rule t%d has %s' % (t['id'], tok(b' /o%d ' % t['id'])))
+                    r = srv_t.sub('rule t%d has %s' % (t['id'], tok(b' /o%d ' % t['id']) if not t.get('reval_of') else tok(b'X-Sim-Req: %d\r\n' % t['id'])))
                     r.add('expect body')
                     if f:
                         # cut strictly inside the encoded body (never at its very end, never before the head ends unless body empty)
@@ -159,7 +179,9 @@ class C01(Prop):
                 hdrs = [(b'Host', host), (b'X-Sim-Req', str(t['id']).encode())]
                 if c['http10']:
                     hdrs.append((b'Connection', b'keep-alive'))
-                req = hc.request_head(t['method'].encode(), b'http://' + host + b'/o%d' % t['id'], hdrs, ver)
+                if t.get('wait'):
+                    cl.add('wait %d' % t['wait'])
+                req = hc.request_head(t['method'].encode(), b'http://' + host + b'/o%d' % (t.get('reval_of') or t['id']), hdrs, ver)
                 cl.add('send %s seg whole' % tok(req))
                 cl.add('expect %s timeout 200000000' % ('response-nobody' if t['method'] == 'HEAD' else 'response'))
                 # a connection that may have been closed by squid cannot be reused by the script
